@@ -20,7 +20,7 @@ ItemAtoms == IF Tier = "quick" THEN {i1, bT, sa, none, ob} ELSE {i1, bT, sa, non
 KeyAtoms  == {i1, sa, none}
 SmallAtoms == {i1, sa}
 
-D1Seq  == { Cont(c, s) : c \in SeqCls \cup {"UColl", "dict_values", "GL"}, s \in SeqsUpTo(ItemAtoms, L) }
+D1Seq  == { Cont(c, s) : c \in SeqCls \cup {"UColl", "dict_values", "GL", "GN"}, s \in SeqsUpTo(ItemAtoms, L) }
 D1Set  == { Cont(c, s) : c \in {"set", "frozenset", "dict_keys"},
                           s \in { t \in SeqsUpTo(ItemAtoms, L) : Distinct(t) } }
 D1Iter == { Iter(c, s) : c \in IterCls, s \in SeqsUpTo(SmallAtoms \cup {none}, 2) }
@@ -58,7 +58,8 @@ LeafAll == {HAny, HCls("object"), IntH, HCls("bool"), StrH, HCls("float"), HCls(
             HLit(<<i1>>), HLit(<<i1, sa>>), HLit(<<bT>>), HLit(<<none, sb>>),
             HType(IntH), HType(HAny), HType(HUnion(<<IntH, StrH>>)), HType(HCls("A")),
             HShallow("Iterator"), HShallow("Generator"),
-            HCls("HasM"), HCls("PM"), HGen("G", IntH), HGen("GL", IntH), HGen("GL", HAny), HGen("GL", HCls("HasM"))}
+            HCls("HasM"), HCls("PM"), HGen("G", IntH), HGen("GL", IntH), HGen("GL", HAny), HGen("GL", HCls("HasM")),
+            HGen("GN", IntH), HGen("GN", StrH), HGen("GN", HAny)}
 LeafKid == IF Tier = "quick"
            THEN {HAny, IntH, StrH, NoneH, HCls("float"), HLit(<<i1, sa>>), HCls("A")}
            ELSE {HAny, HCls("object"), IntH, HCls("bool"), StrH, NoneH, HCls("float"), HCls("complex"),
@@ -89,6 +90,7 @@ D2H == { HSeq(s, k)   : s \in {"list", "Sequence", "tuple"}, k \in Kid2 }
   \cup { HTupF(<<l, k>>) : k \in Kid2, l \in Leaf2 \cup {HAny} }
   \cup { HUnion(<<k, l>>) : k \in Kid2, l \in Leaf2 }
   \cup { HUnion(<<k, m>>) : k \in {HSeq("list", IntH), HMap("dict", StrH, IntH)}, m \in {HSeq("list", StrH), HTupF(<<IntH, StrH>>), HReit("set", IntH)} }
+  \cup { HSeq("list", HGen("GN", IntH)), HTupF(<<HGen("GN", IntH), IntH>>), HUnion(<<HGen("GN", IntH), NoneH>>) }
   \cup { HSeq("list", HGen("GL", IntH)), HTupF(<<HGen("GL", StrH), IntH>>), HUnion(<<HGen("GL", IntH), NoneH>>),
          HMap("dict", StrH, HGen("GL", IntH)), HGen("GL", HSeq("list", IntH)), HGen("GL", HUnion(<<IntH, StrH>>)) }
 
